@@ -151,8 +151,8 @@ def consdrop_monitor(case, il, sl):
 
 
 def suites(tier, seed):
-    return [Suite("consume-drop-schedules", "consdrop", lambda: [Case("d%d" % i, [o], {"keep_prefix": 0}) for i, o in enumerate(["run 4000 0", "run 4000 0", "run 2000 3", "run 1500 8"] + ([] if tier == "quick" else ["run 40000 0", "run 40000 0", "run 20000 2", "run 10000 16"]))], monitor=consdrop_monitor, nontrivial=lambda c, il: True, compare=False, shards=4, shrink=False, timeout=600,
-                  rule="real connection + I/O thread + scripted broker: consume, then drop the Consumer (its Drop cancels, waits for CancelOk and releases the queue), 1500-4000 times per case (thorough: up to 40 000), with 0-8 busy threads competing for the cores so that the I/O thread is preempted at arbitrary points: every cycle succeeds, a call afterwards succeeds, Connection::close returns Ok (a SAMPLE of schedules, not a proof: the two notifications are one atomic step in the Lean model; finding D15)"),
+    return [Suite("consume-drop-schedules", "consdrop", lambda: [Case("d%d" % i, [o], {"keep_prefix": 0}) for i, o in enumerate(["run 4000 0", "run 4000 0", "run 2000 3", "run 1500 8"] + ([] if tier == "quick" else ["run 12000 0", "run 12000 0", "run 8000 2", "run 5000 16"]))], monitor=consdrop_monitor, nontrivial=lambda c, il: True, compare=False, shards=4, shrink=False, timeout=1800,
+                  rule="real connection + I/O thread + scripted broker: consume, then drop the Consumer (its Drop cancels, waits for CancelOk and releases the queue), 1500-4000 times per case (thorough: up to 12 000 - the scripted broker re-parses everything the client ever wrote on each round, so a run costs quadratic time), with 0-8 busy threads competing for the cores so that the I/O thread is preempted at arbitrary points: every cycle succeeds, a call afterwards succeeds, Connection::close returns Ok (a SAMPLE of schedules, not a proof: the two notifications are one atomic step in the Lean model; finding D15)"),
             Suite("consumers-at-api", "api", lambda: gen_api(tier, seed), monitor=api_monitor, nontrivial=lambda c, il: any(o.startswith("cons ") for o in c.ops), canon=apigen.canon, shards=4, timeout=60,
                   rule="public API over the real queue ends: consumers created, cancelled, cancelled twice, dropped, dropped by a panic unwinding through their owner: one Basic.Cancel per live consumer, none for a cancelled one; exact diff against the Lean Api model"),
             Suite("idle-consumer-backlog", "machine", lambda: [mg.backlog_cases(Rng(seed + 31), "consumer", 70000)] if tier == "quick" else [mg.backlog_cases(Rng(seed + 31), "consumer", 70000, prefix="big"), mg.backlog_cases(Rng(seed + 32), "consumer", 12000)], monitor=monitor, nontrivial=lambda c, il: True, canon=mg.canon_nondet, shrink=False, compare=(tier != "quick"), canon_skip_model=("big",), timeout=600,
